@@ -231,19 +231,19 @@ func (g *gen) spsaScripts() []*script {
 		emit(sc)
 	}
 	// deep searches of small positions: null move / LMR / IIR / reverse futility at their depth gates
-	for i := 0; i < T(2, 3) && len(p.cheap) > 0; i++ {
+	for i := 0; i < T(2, 4) && len(p.cheap) > 0; i++ {
 		rt := g.pick(p.cheap)
 		sc := newScript("deep-small", g.buckets())
 		gs := plain(rt, g.maxD+1+r.IntN(3))
-		gs.nodes = T(1500, 15000)
+		gs.nodes = T(1500, 25000)
 		sc.add(gs)
 		emit(sc)
 	}
-	for i := 0; i < T(2, 3) && len(p.tiny) > 0; i++ {
+	for i := 0; i < T(2, 4) && len(p.tiny) > 0; i++ {
 		rt := g.pick(p.tiny)
 		sc := newScript("deep-tiny", g.buckets())
 		gs := plain(rt, 9+r.IntN(4))
-		gs.nodes = T(3500, 15000)
+		gs.nodes = T(3500, 25000)
 		sc.add(gs)
 		emit(sc)
 	}
@@ -427,6 +427,11 @@ func (e *env) spsaMain() {
 		close(ch)
 		wg.Wait()
 		for _, sc := range scripts {
+			// a script that cannot be made small enough by lowering depth limits (quiescence explosions of
+			// crowded positions at depth 1) is not replayed by the model — unless the implementation failed on it
+			if sc.total > 2*perScript && sc.direct == "" {
+				sc.skipped = true
+			}
 			all = append(all, spsaScript{sc, pv})
 		}
 	}
@@ -544,6 +549,7 @@ func (e *env) spsaMain() {
 	// ---- comparison ---------------------------------------------------------------------------
 	totalNodes := 0
 	badVec := map[string]bool{}
+	var failing, broken []common.Mismatch // failing inputs are reported first (the list is capped)
 	for i, s := range todo {
 		sc, pv := s.sc, s.vec
 		e.r.Count("scripts:"+sc.kind, 1)
@@ -607,23 +613,34 @@ func (e *env) spsaMain() {
 				if fuelOut {
 					note += "; model ran out of fuel"
 				}
-				if !badVec[pv.tag+"|"+kind] || len(e.r.Mismatches) < 12 {
+				if !badVec[pv.tag+"|"+kind] || len(failing)+len(broken) < 12 {
 					badVec[pv.tag+"|"+kind] = true
-					e.r.Fail(common.Mismatch{Property: "C06", Kind: kind, Ops: append(append([]string(nil), pre...), sc.ops(j)...), Impl: impl, Model: model,
-						Note: "parameter vector " + pv.tag + " = [" + vecStr(pv.v) + "] (" + strings.Join(spsaNames, " ") + "); script kind " + sc.kind + "; " + note})
+					mm := common.Mismatch{Property: "C06", Kind: kind, Ops: append(append([]string(nil), pre...), sc.ops(j)...), Impl: impl, Model: model,
+						Note: "parameter vector " + pv.tag + " = [" + vecStr(pv.v) + "] (" + strings.Join(spsaNames, " ") + "); script kind " + sc.kind + "; " + note}
+					if kind == "failing-input" {
+						failing = append(failing, mm)
+					} else {
+						broken = append(broken, mm)
+					}
 				}
 				e.r.Count("mismatch:"+sc.kind, 1)
 				e.r.Count("mismatch-vector:"+vclass, 1)
 			}
 		}
 		if !bad && sc.direct != "" {
-			e.r.Fail(common.Mismatch{Property: "C06", Kind: "failing-input", Ops: append(append([]string(nil), pre...), sc.ops(sc.directAt)...), Impl: sc.impl[sc.directAt],
+			failing = append(failing, common.Mismatch{Property: "C06", Kind: "failing-input", Ops: append(append([]string(nil), pre...), sc.ops(sc.directAt)...), Impl: sc.impl[sc.directAt],
 				Model: "(agrees with the implementation)", Note: "parameter vector " + pv.tag + " = [" + vecStr(pv.v) + "]; direct property check: " + sc.direct})
 			e.r.Count("direct-violation", 1)
 		}
 		if len(e.r.Samples) < 6 && !isDefault && sc.total > 200 {
 			e.r.Sample(map[string]any{"vector": pv.tag, "values": vecStr(pv.v), "kind": sc.kind, "ops": sc.ops(min(len(sc.steps)-1, 2)), "answer": sc.impl[min(len(sc.steps)-1, 1)]}, 6)
 		}
+	}
+	for _, mm := range failing {
+		e.r.Fail(mm)
+	}
+	for _, mm := range broken {
+		e.r.Fail(mm)
 	}
 	e.r.Count("nodes-replayed-by-model", totalNodes)
 	e.r.Count("nodes-budget", limit)
